@@ -4,6 +4,7 @@ package c07
 import (
 	"context"
 	"encoding/json"
+	"math"
 
 	jsonrpc "github.com/filecoin-project/go-jsonrpc"
 
@@ -356,6 +357,81 @@ func HarnessConcurrentSubscribe() {
 	pc.CloseGraceful()
 	verif.Quiesce()
 	verif.Reach("concurrent-subscribe-done")
+}
+
+// FH streams floats; an element such as NaN cannot be encoded as JSON.
+type FH struct {
+	CH
+	ffeed chan float64
+}
+
+func (h *FH) FSub(ctx context.Context) (<-chan float64, error) {
+	out := make(chan float64)
+	go func() {
+		defer close(out)
+		for v := range h.ffeed {
+			select {
+			case out <- v:
+			case <-ctx.Done():
+				return
+			}
+		}
+	}()
+	return out, nil
+}
+
+// HarnessUnencodableElement: one subscription's handler sends an element that
+// encoding/json cannot encode (NaN). Whatever becomes of that element, the
+// other subscription on the connection keeps receiving its values in order and
+// its close, and unary calls keep working.
+func HarnessUnencodableElement() {
+	h := &FH{CH: CH{feed: map[int]chan int64{0: make(chan int64)}}, ffeed: make(chan float64)}
+	srv := jsonrpc.NewServer()
+	srv.Register("H", h)
+	pc := verif.DialRaw(srv, nil)
+	recv := func() frame {
+		rb, ok := pc.Recv()
+		verif.Assert(ok, "connection-stays-up")
+		var f frame
+		json.Unmarshal(rb, &f)
+		return f
+	}
+	pc.Send([]byte(`{"jsonrpc":"2.0","id":1,"method":"H.Sub","params":[0]}`))
+	f := recv()
+	var chInt float64
+	json.Unmarshal(f.Result, &chInt)
+	pc.Send([]byte(`{"jsonrpc":"2.0","id":2,"method":"H.FSub","params":[]}`))
+	f = recv()
+	var chFloat float64
+	json.Unmarshal(f.Result, &chFloat)
+	verif.Assert(chInt != chFloat, "distinct-channel-ids")
+	bad := verif.Choice("unencodable", 3)
+	h.ffeed <- []float64{math.NaN(), math.Inf(1), math.Inf(-1)}[bad]
+	verif.Quiesce()
+	// the other stream is unaffected
+	for k := 0; k < 2; k++ {
+		v := verif.Int("v" + string(rune('0'+k)))
+		h.feed[0] <- v
+		f = recv()
+		var ch float64
+		var got int64
+		if len(f.Params) > 1 {
+			json.Unmarshal(f.Params[0], &ch)
+			json.Unmarshal(f.Params[1], &got)
+		}
+		verif.Assert(f.Method == "xrpc.ch.val" && ch == chInt && got == v, "other-stream-keeps-delivering-in-order")
+	}
+	close(h.feed[0])
+	f = recv()
+	var ch float64
+	if len(f.Params) > 0 {
+		json.Unmarshal(f.Params[0], &ch)
+	}
+	verif.Assert(f.Method == "xrpc.ch.close" && ch == chInt, "other-stream-is-closed")
+	close(h.ffeed)
+	pc.CloseGraceful()
+	verif.Quiesce()
+	verif.Reach("unencodable-element-done")
 }
 
 type SH struct {
